@@ -132,7 +132,8 @@ EXTRA = [
     "struct S { int *m, *n[2], (*o); } s, *ps, (*pps);",
     "typedef int T; void f(void){ T T, *p; }",
     "typedef int T; void f(int a){ T T , T ; }",
-    "typedef int T; enum { T , } ;",
+    "typedef int T; void f(void){ enum { T , } ; T * x; }",
+    "typedef int A; void g(int B){ int z[] = { sizeof(enum {A}) }; A * x; struct S { enum {B} m; } s; }",
     "int g(void) { switch (1) { case 1: case 2: case 3: g(); g(); break; default: ; } return (sizeof(int))[\"a\"]; }",
 ]
 
